@@ -90,6 +90,22 @@ def check(case, rec):
     p2, t2 = guarded(find_extrema, xin, fs, fr, **kwargs)
     if not (np.array_equal(peaks, p2) and np.array_equal(troughs, t2)):
         raise Violation('second-call-differs', 'find_extrema called twice with the same filter_kwargs object %r gives different extrema' % (kwargs.get('filter_kwargs'),))
+    fk2 = {'n_cycles': {1: 2, 2: 3, 3: 4, 4: 5, 5: 4, 7: 5}.get((fk or {}).get('n_cycles', 3), 2)}
+    # directly after the calls above: a shorter recording whose PADDED length is the same although its pad is wider
+    # a recording whose PADDED length equals that of the first call although its pad is narrower / wider
+    if pad and fk2 is not None:
+        n3 = n + 2 * (ref.pad_amount(fs, fr, fk, True) - ref.pad_amount(fs, fr, fk2, True))
+        if gen.filt_len_of({'fs': fs, 'f_range': list(fr)}, fk2) + 4 < n3 <= n:
+            x3 = np.ascontiguousarray(xin[:n3])
+            try:
+                exp3 = ref.ref_extrema(x3, fs, fr, fk2, bnd, first, True)
+            except Discard:
+                exp3 = None
+            if exp3 is not None and len(exp3[0]) >= 2 and len(exp3[1]) >= 2 and bnd < n3 // 3:
+                got3 = guarded(find_extrema, x3, fs, fr, boundary=bnd, first_extrema=first, pad=True, filter_kwargs=dict(fk2))
+                if not (np.array_equal(got3[0], exp3[0]) and np.array_equal(got3[1], exp3[1])):
+                    raise Violation('equal-padded-length-differs-from-reference', 'after a call on %d samples with %r, the call on %d samples with %r (same padded length) deviates' % (n, fk, n3, fk2))
+                rec.label('equal-padded-length')
     # another filter length on the same signal, band and rate in the same process: results must not depend on what was
     # computed before (no per-process state keyed too coarsely)
     fk2 = {'n_cycles': {1: 2, 2: 3, 3: 4, 4: 5, 5: 4, 7: 5}.get((fk or {}).get('n_cycles', 3), 2)}
@@ -103,20 +119,6 @@ def check(case, rec):
             if not (np.array_equal(got2[0], exp2[0]) and np.array_equal(got2[1], exp2[1])):
                 raise Violation('second-configuration-differs-from-reference', 'after a call with filter_kwargs=%r, the call with %r (pad=%s) deviates from the reference' % (fk, fk2, pad))
             rec.label('second-configuration')
-            # a recording whose PADDED length equals that of the first call although its pad is narrower / wider
-            if pad:
-                n3 = n + 2 * (ref.pad_amount(fs, fr, fk, True) - ref.pad_amount(fs, fr, fk2, True))
-                if gen.filt_len_of({'fs': fs, 'f_range': list(fr)}, fk2) + 4 < n3 <= n:
-                    x3 = np.ascontiguousarray(xin[:n3])
-                    try:
-                        exp3 = ref.ref_extrema(x3, fs, fr, fk2, bnd, first, True)
-                    except Discard:
-                        exp3 = None
-                    if exp3 is not None and len(exp3[0]) >= 2 and len(exp3[1]) >= 2 and bnd < n3 // 3:
-                        got3 = guarded(find_extrema, x3, fs, fr, boundary=bnd, first_extrema=first, pad=True, filter_kwargs=dict(fk2))
-                        if not (np.array_equal(got3[0], exp3[0]) and np.array_equal(got3[1], exp3[1])):
-                            raise Violation('equal-padded-length-differs-from-reference', 'after a call on %d samples with %r, the call on %d samples with %r (same padded length) deviates' % (n, fk, n3, fk2))
-                        rec.label('equal-padded-length')
     rec.label(*gen.signal_classes(case['sig']))
     rec.label('args:numpy-scalars' if case.get('np_scalars') else 'args:python', 'dtype:' + case.get('dtype', 'float64'), 'first:%s' % first, 'pad:%s' % pad, 'boundary:%s' % ('0' if bnd == 0 else '>0'),
               'filt:' + ('default' if not fk else ('n_seconds' if 'n_seconds' in fk else 'n_cycles')))
